@@ -136,7 +136,7 @@ theorem hangup_only_after_teardown (cfg : Cfg) (s : St) (h : Reachable cfg s) :
     batch `[2]` panics; only then the callback runs. -/
 def demo : List Label :=
   [.send 1, .rxTake, .rxBegin, .send 2, .whenFlushed 7, .rxOutcome (.failRetry [1]), .rxRetryWaited,
-   .rxOutcome .ok, .rxTake, .rxBegin, .rxOutcome .panicAsync]
+   .rxOutcome .ok, .rxTake, .rxBegin, .rxOutcome .panicAsync, .rxFireFlush]
 
 example : ∃ s, Reachable (Cfg.real 4) s ∧ s.registered.Nodup ∧ s.tornDown = false ∧
     (7, [2, 1]) ∈ s.obligations ∧ (7, [1, 2]) ∈ s.acceptedAt ∧ 7 ∈ s.fired ∧ s.finalised = [1, 2] :=
